@@ -61,6 +61,12 @@ func getSubnetsHkdf(sc genericSubnetConfig, seed []byte, weighted bool) ([]*phan
 		})
 
 		// Naive method: get random int, subtract from weights until you are < 0
+		if totWeight <= 0 {
+			// nothing to choose from (no usable subnets, or all weights zero):
+			// rand.Int panics on a non-positive bound
+			return nil, ErrMissingAddrs
+		}
+
 		hkdfReader := hkdf.New(sha256.New, seed, nil, []byte("phantom-select-subnet"))
 		totWeightBig := big.NewInt(totWeight)
 		rndBig, err := rand.Int(hkdfReader, totWeightBig)
